@@ -50,6 +50,7 @@ Expected(e) ==
                                THEN Key(T, Shape.symz[i.sym], i.a, 0) ELSE Raise
        [] e.r = "elA"  -> IF ValidIso(T, i.z, i.a) THEN Key(T, i.z, i.a, 0) ELSE Raise
        [] e.r = "ion"  -> IF (i.a = 0 \/ ValidIso(T, i.z, i.a)) /\ ValidIon(i.z, i.q) THEN Key(T, i.z, i.a, i.q) ELSE Raise
+       [] e.r = "ionx" -> Raise                 \* a non-integral charge (given as text) never denotes an ion
        [] e.r \in {"again", "pickle", "pickle2", "deepcopy"} -> Key(T, i.z, i.a, i.q)
        [] e.r = "chg"  -> Key(i.to, i.z, i.a, i.q)
 
